@@ -149,8 +149,8 @@ Definition set_bucket (t : table) (i : nat) (b : bucket) : table :=
   mkTable (t_local t) (t_size t) (upd i b (t_buckets t)).
 
 (** [bucketID := cpl; if bucketID >= len(rt.Buckets) { bucketID = len(rt.Buckets) - 1 }] *)
-Definition bucket_index (clamp : Z -> Z -> bool) (t : table) (c : nat) : nat :=
-  if clamp (Z.of_nat c) (nbuckets t) then Z.to_nat (kb_last_index (nbuckets t)) else c.
+Definition bucket_index (clamp : Z -> Z -> bool) (clamp_to : Z -> Z) (t : table) (c : nat) : nat :=
+  if clamp (Z.of_nat c) (nbuckets t) then Z.to_nat (clamp_to (nbuckets t)) else c.
 
 (** [nextBucket]: split the last bucket at its own index, append the new bucket, and do it again
     while the new bucket holds [>= bucketsize] entries. *)
@@ -158,7 +158,7 @@ Fixpoint next_bucket (fuel : nat) (t : table) : option table :=
   match fuel with
   | O => None
   | S fuel' =>
-      let li := Z.to_nat (kb_last_index (nbuckets t)) in
+      let li := Z.to_nat (kb_unfold_index (nbuckets t)) in
       let b := get_bucket t li in
       let newb := split_out li (t_local t) b in
       let t' := mkTable (t_local t) (t_size t)
@@ -176,7 +176,7 @@ Inductive ures := UMoved | UAdded | URejected | UDiverged.
     [URejected] when the result is [ErrPeerRejectedNoCapacity]. *)
 Definition update (t : table) (id : peer_id) (addr : N) : table * ures :=
   let c := cpl id (t_local t) in
-  let i := bucket_index kb_clamp_update_1 t c in
+  let i := bucket_index kb_clamp_update_1 kb_clamp_update_1_to t c in
   let b := get_bucket t i in
   if has id b then
     match move_to_front id b with
@@ -189,7 +189,7 @@ Definition update (t : table) (id : peer_id) (addr : N) : table * ures :=
     match next_bucket unfold_fuel t with
     | None => (t, UDiverged)
     | Some t' =>
-        let i' := bucket_index kb_clamp_update_2 t' c in
+        let i' := bucket_index kb_clamp_update_2 kb_clamp_update_2_to t' c in
         let b' := get_bucket t' i' in
         if kb_update_still_full (blen b') (t_size t') then (t', URejected)
         else (set_bucket t' i' ((id, addr) :: b'), UAdded)
@@ -198,15 +198,16 @@ Definition update (t : table) (id : peer_id) (addr : N) : table * ures :=
 
 (** [RouteTable.Remove]; the boolean says whether [rt.PeerRemoved] is called. *)
 Definition remove (t : table) (id : peer_id) : table * bool :=
-  let i := bucket_index kb_clamp_remove t (cpl id (t_local t)) in
+  let i := bucket_index kb_clamp_remove kb_clamp_remove_to t (cpl id (t_local t)) in
   let b := get_bucket t i in
   if has id b then (set_bucket t i (remove_first id b), true) else (t, false).
 
 (** The two collecting loops of NearestPeers: take whole buckets while [pds.Len() < count]. *)
-Fixpoint take_while_short (count : Z) (acc : list peer) (bs : list bucket) : list peer :=
+Fixpoint take_while_short (short : Z -> Z -> bool) (count : Z) (acc : list peer) (bs : list bucket)
+  : list peer :=
   match bs with
   | [] => acc
-  | b :: r => if kb_nearest_short (blen acc) count then take_while_short count (acc ++ b) r else acc
+  | b :: r => if short (blen acc) count then take_while_short short count (acc ++ b) r else acc
   end.
 
 Definition wrap_int64 (z : Z) : Z := ((z + 2 ^ 63) mod 2 ^ 64 - 2 ^ 63)%Z.
@@ -217,11 +218,11 @@ Inductive nres := NPanic | NOk (out : list peer).
     is negative; [pds.peers[:count]] panics for a negative count.  (An absurdly large capacity
     would also make [make] fail; not modelled, the theorems bound [count].) *)
 Definition nearest_peers (t : table) (target : peer_id) (count : Z) : nres :=
-  let c := bucket_index kb_clamp_nearest t (cpl target (t_local t)) in
+  let c := bucket_index kb_clamp_nearest kb_clamp_nearest_to t (cpl target (t_local t)) in
   if (wrap_int64 (count + t_size t) <? 0)%Z then NPanic else
   let p0 := get_bucket t c in
-  let p1 := take_while_short count p0 (skipn (S c) (t_buckets t)) in
-  let p2 := take_while_short count p1 (rev (firstn c (t_buckets t))) in
+  let p1 := take_while_short kb_nearest_short_right count p0 (skipn (S c) (t_buckets t)) in
+  let p2 := take_while_short kb_nearest_short_left count p1 (rev (firstn c (t_buckets t))) in
   let sorted := sort_by (dist_less target) p2 in
   if kb_nearest_truncate count (blen sorted) then
     (if (count <? 0)%Z then NPanic else NOk (firstn (Z.to_nat count) sorted))
